@@ -126,6 +126,19 @@ def r03_1(ctx):
         else:
             r.violate(DISPATCH, site, where, "close_notify honoured from an unauthenticated record although keys exist",
                       core.describe_path(d, p))
+    # handshake records: the same gate as for alerts. Once keys are negotiated the peer's next messages are protected;
+    # a plaintext handshake record taken for the next message (a forged Finished that fails verification) lets anyone
+    # tear the connection down
+    hs = [bi for bi, t, p in core.calls_to(d, suffix("DtlsInner::process_handshake_payload"))]
+    r.need("handshake dispatch sites", len(hs), 1)
+    for bi in hs:
+        p = core.k1(d, [bi], ga + gk)[bi]
+        if p is None:
+            r.ok({"site": "%s process_handshake_payload" % d.where(bi), "cut_by": "epoch != 0 or no keys negotiated"})
+        else:
+            r.violate(DISPATCH, "dispatch:Handshake", d.where(bi),
+                      "a plaintext (epoch 0) handshake record is processed although keys exist: a forged Finished fails verification and moves an "
+                      "established connection to Failed", core.describe_path(d, p))
     # the dispatcher's epoch must be the record's epoch: call-site wiring in handle_incoming_packet
     inc = ctx.body(INCOMING)
     calls = core.calls_to(inc, suffix("DtlsInner::handle_decrypted_record"))
@@ -312,5 +325,60 @@ def r03_4(ctx):
     return r
 
 
+def r03_5(ctx):
+    """two counters exist for one key: `ctx.sequence_number` numbers the records of the handshake, and when the
+    handshake finishes it is handed over to `write_seq` (handle_finished stores it there together with write_epoch),
+    from which every application record draws. After the hand-over `ctx.sequence_number` is stale: sealing with it
+    repeats the (epoch, sequence) nonce of the first application records. Wherever a seal can take its number from
+    either counter, the choice must be made by asking whether the hand-over has happened (write_epoch == this epoch) -
+    not by the current connection state, which also leaves Connected when the PEER's close_notify arrives first."""
+    r = RuleResult("R03.5", "K1", "a seal that can use either sequence counter chooses by the hand-over (write_epoch), not by the state")
+    n = 0
+    for b in ctx.facts.bodies(prefix="transports::dtls::"):
+        if "::tests::" in b.name:
+            continue
+        fa = [bi for bi, t, p in b.calls() if p and p.endswith("::fetch_add") and t["a"] and mir.has_field(b.term_operand(t["a"][0]), "write_seq")]
+        if not fa:
+            continue
+        ctx_reads = []
+        for bi, si, st in b.assigns():
+            rv = st["rv"]
+            if rv["r"] == "use" and "p" in rv["o"] and isinstance(rv["o"]["p"].get("p"), list):
+                names = [e.get("f") for e in rv["o"]["p"]["p"] if isinstance(e, dict)]
+                if names and names[-1] == "sequence_number" and "p" not in st["p"] and b.locals[st["p"]["l"]]["ty"] == "u64":
+                    ctx_reads.append(bi)
+        if not ctx_reads:
+            continue
+        be = b.back_edges()
+        for f_blk in fa:
+            for c_blk in ctx_reads:
+                decider = None
+                for sb in range(len(b.blocks)):
+                    if sb in b.cleanup or b.blocks[sb]["t"]["k"] != "switch":
+                        continue
+                    term, outs = b.switch_info(sb)
+                    tg = [t for t, _, _ in outs]
+                    if len(tg) != 2:
+                        continue
+                    r0, r1 = b.reachable([tg[0]], cut_edges=be), b.reachable([tg[1]], cut_edges=be)
+                    if (f_blk in r0 and c_blk in r1 and f_blk not in r1 and c_blk not in r0) or \
+                            (f_blk in r1 and c_blk in r0 and f_blk not in r0 and c_blk not in r1):
+                        if decider is None or sb in b.reachable([decider], cut_edges=be):
+                            decider = sb
+                if decider is None:
+                    continue
+                n += 1
+                term, _ = b.switch_info(decider)
+                if any(mir.has(tt, lambda x: core.is_atomic_load(x, "write_epoch")) for tt in core.expand_vars(b, term, depth=2)):
+                    r.ok({"site": b.where(decider), "function": b.name.split("::")[-2], "chooses by": mir.show(term, 90)})
+                else:
+                    r.violate(b.name, "seq:choice", b.where(decider),
+                              "whether a record is numbered from write_seq or from the handshake's own counter is decided by %s: once the "
+                              "state has left Connected without this side having closed (peer close_notify first) the stale handshake counter is "
+                              "used again and an (epoch, sequence) nonce is repeated" % mir.show(term, 80))
+    r.need("seals that can use either counter", n, 1)
+    return r
+
+
 def run(ctx):
-    return [r03_1(ctx), r03_2(ctx), r03_3(ctx), r03_4(ctx)]
+    return [r03_1(ctx), r03_2(ctx), r03_3(ctx), r03_4(ctx), r03_5(ctx)]
